@@ -146,18 +146,24 @@ def described(text, ty, fmt):
                 return (n, 0, {(min(u, a), max(u, a)) for a, vs in adj for u in vs})
             return (n, 0, {(u, a) for a, vs in adj for u in vs})
         if fmt == 'dimacs':
-            n = None
+            n = m = None
             es = set()
+            cnt = 0
             for ln in text.split('\n'):
                 t = ln.split()
                 if not t:
                     continue
                 if t[0][0] == 'p':
-                    n = int(t[2])
+                    if n is not None or t[1] != 'edge' or len(t) != 4:
+                        return None
+                    n, m = int(t[2]), int(t[3])
                 elif t[0][0] == 'e':
+                    if n is None or len(t) != 3:
+                        return None
                     u, v = int(t[1]), int(t[2])
+                    cnt += 1
                     es.add((min(u, v), max(u, v)) if ty == 'simple' else (u, v))
-            return None if n is None else (n, 0, es)
+            return None if (n is None or cnt != m) else (n, 0, es)
         if fmt == 'matrix':
             toks = []
             for ln in text.split('\n'):
@@ -167,10 +173,23 @@ def described(text, ty, fmt):
                 toks += [int(x) for x in t]
             n, m = toks[0], toks[1]
             ent = toks[2:]
+            if len(ent) != n * m or any(b not in (0, 1) for b in ent):
+                return None
             return (n, m, {(k // m + 1, k % m + 1) for k in range(n * m) if ent[k] == 1})
     except Exception:  # noqa
         return None
     return None
+
+
+def kth_lefts(text):
+    out = []
+    for l in text.split('\n'):
+        if ':' in l and not l.startswith('c'):
+            try:
+                out.append(int(l.split(':')[0]))
+            except ValueError:
+                pass
+    return out
 
 
 def consistent(text, ty, fmt, cg):
@@ -179,6 +198,10 @@ def consistent(text, ty, fmt, cg):
     if d is None:
         return False
     n, r, es = d
+    if ty == 'dag' and any(u >= v for u, v in es):
+        return False          # a file declared acyclic may only have increasing edges
+    if any(not (1 <= u <= n and 1 <= v <= (r if ty == 'bipartite' else n)) for u, v in es) or (ty == 'simple' and any(u == v for u, v in es)):
+        return False
     return cg[2] == n and cg[3] == r and {tuple(e) for e in cg[4]} == es
 
 
@@ -317,7 +340,49 @@ def mutate(rng, text, fmt, n_hint):
     return kind, '\n'.join(lines)
 
 
+def near_valid_text(rng, fmt):
+    """a file assembled line by line from plausible pieces (most are accepted)"""
+    n = rng.randint(0, 6)
+    num = lambda lo, hi: str(rng.randint(lo, hi)) if rng.random() < 0.93 else rng.choice(['0', '-1', str(hi + 1), '+1', '01', '1_0', 'x'])
+    lines = []
+    if fmt == 'kthlist':
+        if rng.random() < 0.5:
+            lines.append(rng.choice(['c name', 'c', 'c  ', 'cname']))
+        lines.append(str(n) if rng.random() < 0.95 else rng.choice(['', '-2', 'n', '3 3']))
+        vs = sorted(rng.sample(range(1, n + 1), rng.randint(0, n))) if rng.random() < 0.9 else [rng.randint(1, n + 1) for _ in range(rng.randint(0, 4))]
+        for v in vs:
+            nb = [num(1, max(1, n)) for _ in range(rng.randint(0, 3))]
+            if rng.random() < 0.7:
+                nb = sorted(set(nb), key=lambda x: (len(x), x))
+            sep = rng.choice([' : ', ':', ' :', ': ', '\t:\t'])
+            lines.append(str(v) + sep + ' '.join(nb + ['0'] if rng.random() < 0.95 else nb))
+    elif fmt == 'dimacs':
+        m = rng.randint(0, 5)
+        if rng.random() < 0.5:
+            lines.append(rng.choice(['c name', 'c', 'c two  words']))
+        lines.append('p edge %d %d' % (n, m) if rng.random() < 0.9 else rng.choice(['p edge %d' % n, 'p col %d %d' % (n, m), 'p edge %d %d 0' % (n, m), 'p  edge\t%d  %d' % (n, m)]))
+        for _ in range(m if rng.random() < 0.85 else rng.randint(0, 6)):
+            lines.append('e %s %s' % (num(1, max(1, n)), num(1, max(1, n))))
+        if rng.random() < 0.2:
+            lines.insert(rng.randrange(len(lines) + 1), rng.choice(['x 1 2', 'n 1 3', 'edge', '%', 'c again', 'p edge 1 0']))
+    else:
+        L, R = rng.randint(0, 4), rng.randint(0, 4)
+        lines.append('%d %d' % (L, R))
+        ent = [rng.choice('01') if rng.random() < 0.95 else rng.choice(['2', '-1', 'x', '1_0', '+1']) for _ in range(L * R + (0 if rng.random() < 0.85 else rng.choice([-1, 1])))]
+        if rng.random() < 0.7:
+            for i in range(L):
+                lines.append(' '.join(ent[i * R:(i + 1) * R]))
+        else:
+            lines.append(' '.join(ent))
+        if rng.random() < 0.3:
+            lines.insert(rng.randrange(len(lines) + 1), rng.choice(['# c', '#', '', '  ']))
+    t = '\n'.join(lines)
+    return t + ('\n' if rng.random() < 0.8 else '')
+
+
 def random_text(rng, fmt):
+    if rng.random() < 0.5:
+        return near_valid_text(rng, fmt)
     if rng.random() < 0.15:
         return ''.join(rng.choice('0123456789 :cpe#\n\t-+_x\r') for _ in range(rng.randint(0, 25)))
     words = {'kthlist': ['0', '1', '2', '3', '4', ':', '1 :', '2 :', '3 :', ' 0', 'c', 'c x', '', ' ', '5', '-1', 'x', '1:', ':0', '2 : 3 0', '1 : 0', '3 : 1 2 0'],
@@ -357,7 +422,7 @@ def classify_reader(ctx, stream, text, ty, fmt, got, mod, extra=None):
         d = described(text, ty, fmt)
         cls = 'graph-differs-from-text'
         if fmt == 'kthlist' and ty == 'bipartite' and d is not None:
-            lefts = [int(l.split(':')[0]) for l in text.split('\n') if ':' in l and not l.startswith('c')]
+            lefts = kth_lefts(text)
             if len(set(lefts)) < len(lefts):
                 cls = 'duplicate-left-vertex'
         ctx.violation('counterexample', 'readGraph accepted a %s text but returned a graph that is not the one the text describes' % fmt,
@@ -370,9 +435,22 @@ def classify_reader(ctx, stream, text, ty, fmt, got, mod, extra=None):
         if got[0] == 'exc' and got[1] == 'ValueError':
             ctx.tally('repaired-defect-seen', site + ':' + mod[1])
             return
+    if mod == ('exc', 'IndexError') and fmt == 'dimacs' and got[0] == 'ok':
+        # repaired reader that skips blank lines: must agree with the model on the text without them
+        t2 = ''.join(l for l in text.splitlines(True) if l.strip())
+        rep = ctx.model.call(Sym('gio_read'), True, Sym(ty), Sym(fmt), t2)
+        if not is_error(rep) and model_outcome(rep) == (got[0], got[1]):
+            ctx.tally('repaired-defect-seen', site + ':blank-lines-skipped')
+            return
     if mod[0] == 'ok' and not consistent(text, ty, fmt, mod[1]) and got[0] == 'exc' and got[1] == 'ValueError':
         ctx.tally('repaired-defect-seen', site + ':inconsistent-accept')
         return
+    if fmt == 'kthlist' and ty == 'bipartite' and mod[0] == 'ok' and got[0] == 'exc' and got[1] == 'ValueError':
+        # documented behaviour (left vertices in increasing order): the model keeps the dead `previous` test (D8)
+        lefts = kth_lefts(text)
+        if any(a >= b for a, b in zip(lefts, lefts[1:])):
+            ctx.tally('repaired-defect-seen', bsite + ':order-enforced')
+            return
     agree = (got[0] == mod[0]) and (same_graph(got[1], mod[1]) if got[0] == 'ok' else got[1] == mod[1])
     if not agree:
         ctx.disagreements_checked += 1
@@ -411,7 +489,8 @@ def run(ctx):
             graphs.append((ty, 25, 0, [(3, 20)], 'isolated', 'fixed'))
     jobs = []     # (ty, fmt, n, r, name, text, got_back, cg)
     reqs = []
-    gml_dot_budget = {'gml': 150 if quick else 1500, 'dot': 150 if quick else 1500}
+    budget0 = 40 if quick else 400
+    gml_dot_budget = {(ty, f): budget0 for ty in TYPES for f in ('gml', 'dot')}
     for (ty, n, r, es, name, origin) in graphs:
         try:
             g = mk_graph(G, ty, n, r, es, name)
@@ -421,14 +500,14 @@ def run(ctx):
             continue
         cg = canon(g)
         for fmt in formats[ty]:
-            if fmt in gml_dot_budget:
-                if origin == 'all<=4' and (n + r) < 3 and fmt in gml_dot_budget:
+            if fmt in ('gml', 'dot'):
+                if origin == 'all<=4' and (n + r) < 3:
                     pass
-                elif origin == 'all<=4' and rng.random() < (0.85 if quick else 0.3):
+                elif origin == 'all<=4' and rng.random() < (0.9 if quick else 0.5):
                     continue
-                if gml_dot_budget[fmt] <= 0 and origin != 'fixed':
+                if gml_dot_budget[(ty, fmt)] <= 0 and origin != 'fixed':
                     continue
-                gml_dot_budget[fmt] -= 1
+                gml_dot_budget[(ty, fmt)] -= 1
             ctx.tally('roundtrip format', '%s/%s' % (ty, fmt))
             ctx.tally('roundtrip vertices', '>=10' if (n + r) >= 10 else str(n + r))
             ctx.tally('roundtrip origin', origin)
@@ -493,7 +572,12 @@ def run(ctx):
                 mod = model_outcome(r1)
             else:
                 mod = ('exc', 'not-a-graph') if (r1 is None or r1 == 'none') else dag_filter(ty, model_outcome(r1[1]))
-            if not (back[0] == mod[0] and (same_graph(back[1], mod[1], names=False) if back[0] == 'ok' else back[1] == mod[1])):
+            if back[0] == 'ok' and same_graph(back[1], cg, names=False):
+                # the round trip is the identity (documented behaviour); the faithful model predicts a renumbering
+                # only for dot files with ten or more vertices (D9): a repaired reader agrees with the spec variant
+                if not (mod[0] == 'ok' and same_graph(mod[1], cg, names=False)):
+                    ctx.tally('repaired-defect-seen', fmt + '-roundtrip:label-order')
+            elif not (back[0] == mod[0] and (same_graph(back[1], mod[1], names=False) if back[0] == 'ok' else back[1] == mod[1])):
                 ctx.disagreements_checked += 1
                 ctx.violation('correspondence', 'graph read back from %s differs from the model of label sorting + from_networkx' % fmt,
                               dict(input=inp, implementation=list(back), model=list(mod)), False, site=fmt + '-roundtrip', cls='model-differs')
@@ -657,6 +741,26 @@ def run_cli(ctx, G, quick, has_dot):
             if not (res[0] == 'exc' and res[1] == 'ValueError'):
                 ctx.violation('counterexample', 'a graph file argument without a usable format is not refused with ValueError',
                               dict(input=dict(graph_type=ty, spec=spec), implementation=[str(x) for x in res[1:]]), True, site='cli-file', cls='format-not-refused')
+        # text-mode files translate \r\n and \r to \n before the readers see them
+        nl_jobs, nl_reqs = [], []
+        for i in range(8 if quick else 60):
+            ty = rng.choice(TYPES)
+            n, r, es = random_graph(rng, ty, 12)
+            g = mk_graph(G, ty, n, r, es, 'G')
+            fmt = rng.choice([f for f in G.supported_graph_formats()[ty] if f in INHOUSE])
+            sep = rng.choice(['\r\n', '\r'])
+            raw = impl_write(G, g, ty, fmt).replace('\n', sep)
+            pth = os.path.join(tmp, 'nl%d.%s' % (i, fmt))
+            with open(pth, 'wb') as f:
+                f.write(raw.encode('ascii'))
+            res = outcome(lambda: canon(G.readGraph(pth, ty, fmt)))
+            seen = raw.replace('\r\n', '\n').replace('\r', '\n')
+            nl_jobs.append((dict(graph_type=ty, format=fmt, file_bytes=raw), res, ty, fmt, seen))
+            nl_reqs.append(cmd('gio_read', has_dot, Sym(ty), Sym(fmt), seen))
+            ctx.count('cli', (ty, fmt, raw), True, sample=dict(graph_type=ty, format=fmt, line_ends=repr(sep)))
+        for (inp, res, ty, fmt, seen), rep in zip(nl_jobs, ctx.model.batch(nl_reqs)):
+            got = ('ok', res[1]) if res[0] == 'ok' else ('exc', res[1])
+            classify_reader(ctx, 'cli', seen, ty, fmt, got, model_outcome(rep), dict(file_bytes=inp['file_bytes']))
         for (inp, got, saved, ty, fmt2), rep in zip(jobs, ctx.model.batch(reqs)):
             if is_error(rep) or rep[0] != 'ok' or rep[1] != saved:
                 ctx.violation('correspondence', "text stored by 'save' differs from the model writer", dict(input=inp, saved=saved, model=rep), False,
